@@ -47,3 +47,48 @@ Print Assumptions raw_literal_inside_block.
 Example roundtrip_example :
   unquote_lit (quote_with cSQ [34; 39; 92; 10; 123; 125; 36; 20013]) = Ok [34; 39; 92; 10; 123; 125; 36; 20013].
 Proof. vm_compute. reflexivity. Qed.
+
+(* ---- END TO END, from source text to output text (Proofs/EndToEnd.v, session 3): the whole pipeline composed —
+   HTML scanner, directive-value scanner, lexer, parser, literal decoding, tree builder, evaluator, renderer, escaping.
+   For EVERY string s (any runes) not containing the attribute's own delimiter, the one-element template
+       <p :text=D${LIT}D>x</p>          LIT = s written as a literal in the given quoting style
+   LOADS (the literal's braces, its "${", its quotes other than D do not end the block or the attribute early) and
+   renders, for every data value, every condition table and every fuel >= 2, to exactly  <p> escape(s) </p>  with the
+   table and the call log unchanged.  e2e_env = six explicit facts about the configuration and the Unicode tables (prefix
+   ":", p is neither raw-text nor void, blank is white space, the letters of the source are not); the hypothesis
+   ~ In D s is necessary: a literal containing the attribute's own delimiter never loads (the property's exception). *)
+From Tpl Require Import Html.Exec Proofs.EndToEnd.
+Theorem literal_text_end_to_end : forall is_space to_lower is_letter is_udigit methods call_fn text_tags void_elements mgr,
+  e2e_env is_space to_lower text_tags void_elements mgr -> is_space cDQ = false -> is_letter cSQ = false ->
+  forall s : str, ~ In cDQ s ->
+  renders_to is_space to_lower is_letter is_udigit methods call_fn text_tags void_elements mgr
+    (pre_src ++ [cDQ; cDOLLAR; cLB] ++ quote_with cSQ s ++ [cRB; cDQ] ++ post_src)
+    (s_open_p ++ escape s ++ s_close_p).
+Proof. exact EndToEnd.literal_text_end_to_end. Qed.
+Theorem dq_literal_text_end_to_end : forall is_space to_lower is_letter is_udigit methods call_fn text_tags void_elements mgr,
+  e2e_env is_space to_lower text_tags void_elements mgr -> is_space cSQ = false -> is_letter cDQ = false ->
+  forall s : str, ~ In cSQ s ->
+  renders_to is_space to_lower is_letter is_udigit methods call_fn text_tags void_elements mgr
+    (pre_src ++ [cSQ; cDOLLAR; cLB] ++ quote_with cDQ s ++ [cRB; cSQ] ++ post_src)
+    (s_open_p ++ escape s ++ s_close_p).
+Proof. exact EndToEnd.dq_literal_text_end_to_end. Qed.
+Theorem raw_literal_text_end_to_end : forall is_space to_lower is_letter is_udigit methods call_fn text_tags void_elements mgr,
+  e2e_env is_space to_lower text_tags void_elements mgr ->
+  forall d : rune, PrintScanDefs.is_quote d = true -> is_space d = false -> is_letter cBQ = false ->
+  forall s : str, ~ In d s -> ~ In cBQ s -> ~ In cCR s ->
+  renders_to is_space to_lower is_letter is_udigit methods call_fn text_tags void_elements mgr
+    (pre_src ++ [d; cDOLLAR; cLB] ++ quote_raw s ++ [cRB; d] ++ post_src)
+    (s_open_p ++ escape s ++ s_close_p).
+Proof. exact EndToEnd.raw_literal_text_end_to_end. Qed.
+(* non-vacuity with concrete ASCII tables, the default raw-text / void lists read from the Go source, and the string
+   a}b${c{'`<&  *)
+Example hostile_end_to_end :
+  pre_src ++ [cDQ; cDOLLAR; cLB] ++ quote_with cSQ hostile ++ [cRB; cDQ] ++ post_src = hostile_src /\
+  s_open_p ++ escape hostile ++ s_close_p = hostile_out /\
+  renders_to ReadbackExample.bx_space ReadbackExample.bx_lower ReadbackExample.bx_letter ReadbackExample.bx_digit
+             ReadbackExample.bx_methods ReadbackExample.bx_call Gen.Facts.default_text_tags Gen.Facts.default_void_elements
+             ReadbackExample.bx_mgr hostile_src hostile_out.
+Proof. exact EndToEnd.hostile_end_to_end. Qed.
+Print Assumptions literal_text_end_to_end.
+Print Assumptions dq_literal_text_end_to_end.
+Print Assumptions raw_literal_text_end_to_end.
